@@ -519,7 +519,26 @@ func ZZ_C01_interference() {
 		`m["z"] = 9`, `m = nil`, `m = {}`, `m[k] = nil`, `m = 1`, `for q in m { delete(m, q) }`,
 	}
 	var src, id string
-	switch f := zz.Choose(9); f {
+	switch f := zz.Choose(10); f {
+	case 9:
+		// zero values of the types a script can name with make(type T, v): for a
+		// module v that is a nil *env.Env, for a caught error a nil *vm.Error,
+		// for a function a nil func, for a channel a nil channel, for a pointer a
+		// nil pointer - each used in every way a value can be used, at statement
+		// level (no enclosing call whose recover would hide a panic)
+		pre := []string{"module m { }; make(type T, m); x = make([]T, 1)[0]; ", "zzq = 0; try { throw \"a\" } catch e { make(type T, e); zzq = make([]T, 1) }; x = zzq[0]; ",
+			"make(type T, func() { }); x = make([]T, 1)[0]; ", "make(type T, make(chan int64, 1)); x = make([]T, 1)[0]; ", "make(type T, new(int64)); x = make([]T, 1)[0]; ",
+			"module m { }; make(type T, m); zzm = make(map[string]T); zzm.a = nil; x = zzm.a; "}
+		uses := []string{"x.y", "x.y = 1", "y = x; y", "var y = x; y", "x.y++", "throw x", "make(x.T)", "x()", "x(1, 2)", "go x()", "defer x()", "close(x)", "for q in x { }", "\"\" + x", "x + \"\"", "x == x",
+			"x == nil", "*x", "(*x).y", "*x = 1", "x[0]", "x[0] = 1", "x[0:1]", "len(x)", "-x", "!x", "x ? 1 : 2", "x ?? 1", "[x]", "{\"k\": x}", "{x: 1}", "1 in x", "x in [x]", "switch x { case nil: 1 }",
+			"delete(x, \"a\")", "delete(x)", "f = func(v...) { return v }; f(x...)", "id = func(v) { return v }; id(x)", "make([]int64, x)", "x.Error()", "x.Error", "e2 = x; e2.y.z = 1", "for p in [x] { p.y }", "for p in [x] { make(p.T) }",
+			"x = x", "x += 1", "x.y += 1", "module n { z = x }; n.z.y", "func g() { return x }; g().y", "if x { 1 }", "for x { break }", "return x"}
+		pi, ui := zz.Choose(len(pre)), zz.Choose(len(uses))
+		if pi == 3 && (ui == 12 || ui == 4) {
+			return // (ranging over a nil channel blocks for ever: that is Go's semantics, not a crash)
+		}
+		src = pre[pi] + uses[ui]
+		id = "zero-of-script-named-type/" + []string{"module", "caught-error", "func", "chan", "pointer", "module-in-map"}[pi] + "/" + uses[ui]
 	case 7:
 		// the loop variable of a for-in over containers whose elements are nil
 		// pointers / nil containers / nil, used in every way a value can be used
@@ -543,7 +562,9 @@ func ZZ_C01_interference() {
 			"a = \"日本\"; a[2]", "a = \"日本\"; a[5]", "a = \"héllo\"; r = []; for i = 0; i < len(a); i++ { r += a[i] }; r", "a = \"日本\"; a[1:2]", "a = \"日本\"; a[2:]", "a = \"日本\"; a[4] = \"x\"; a",
 			"a = \"日本\"; a[6] = \"x\"; a", "a = \"é\"; a[1]", "a = \"\\xff\\xfe\"; a[1]", "a = \"日本\"; for c in a { }", "a = \"日本\"; a[-1]", "a = \"日本\"; a[1] = \"\"; a",
 			"a = make([]chan int64, 1); close(a[0])", "a = make([]*int64, 1); a[0].x", "a = make([]*int64, 1); delete(a[0], 1)", "a = make([]*int64, 1); for x in a[0] { }", "a = make([]*int64, 1); len(a[0])", "a = make([]*int64, 1); a[0][0]",
-			"a = make([]*int64, 1); a[0][0] = 1", "a = make([]*int64, 1); a[0]()", "a = make([]*int64, 1); f = func(x...) { return x }; f(a[0]...)", "a = make([]*int64, 1); 1 in a[0]", "a = make([]*int64, 1); make([]int64, a[0])"}
+			"a = make([]*int64, 1); a[0][0] = 1", "a = make([]*int64, 1); a[0]()", "a = make([]*int64, 1); f = func(x...) { return x }; f(a[0]...)", "a = make([]*int64, 1); 1 in a[0]", "a = make([]*int64, 1); make([]int64, a[0])",
+			// types a bundled package table can offer (time.Ticker has a field `C <-chan Time`)
+			"make(RecvOnly)", "make(SendOnly)", "t = make(Tick); t.C", "make([]RecvOnly, 1)[0]", "make(chan RecvOnly, 1)", "c = make(RecvOnly); close(c)", "c = make(SendOnly); c <- 1", "t = new(Tick); t.C"}
 		oi := zz.Choose(len(ops))
 		src = ops[oi]
 		id = "nil-operands/" + ops[oi]
@@ -593,6 +614,11 @@ func ZZ_C01_interference() {
 	e := env.NewEnv()
 	e.Define("range", func(n int64) []int64 { return make([]int64, n) })
 	e.Define("reterr", func() error { return nil }) // a Go function over script values whose result is a nil error
+	var zzro <-chan int64
+	var zzso chan<- int64
+	e.DefineType("RecvOnly", zzro)
+	e.DefineType("SendOnly", zzso)
+	e.DefineType("Tick", struct{ C <-chan int64 }{})
 	e.Define("len", func(v interface{}) int64 {
 		rv := reflect.ValueOf(v)
 		switch rv.Kind() {
